@@ -121,7 +121,7 @@ Res run_tcp(int mA, int mB, int scode, int layout, bool multihomed)
 }
 
 // df: 0 never touched, 1 set, 2 set then cleared ; dir: 0 A->S, 1 S->A
-Res run_udp(int mtu, int scode, int df, int dir, bool multihomed)
+Res run_udp(int mtu, int scode, int df, int dir, bool multihomed, bool busy = false)
 {
 	Res R; World w; make_world(w, mtu, 1475);
 	sim::simulation sim(w);
@@ -143,11 +143,24 @@ Res run_udp(int mtu, int scode, int df, int dir, bool multihomed)
 	std::string pl = pat(3, size);
 	std::vector<char> rb(70000); ip::udp::endpoint from; bool got = false; std::size_t gn = 0;
 	rx.async_receive_from(asio::buffer(rb), from, [&](error_code const& e2, std::size_t n) { if (!e2) { got = true; gn = n; } });
+	int fillers = 0; std::unique_ptr<ip::udp::socket> snk;
+	if (busy) {
+		// the sender's send buffer is full when the datagram is offered: small datagrams to an unbound port until would_block
+		tx.set_option(ip::udp::socket::send_buffer_size(3000), ec);
+		snk.reset(new ip::udp::socket(dir == 0 ? nS : nA)); snk->open(ip::udp::v4()); snk->bind(ip::udp::endpoint(addr(dir == 0 ? "10.0.1.1" : "10.0.0.1"), 5998));
+		std::string f7 = pat(9, 7); error_code fe;
+		for (; fillers < 5000 && !fe; ++fillers) tx.send_to(asio::buffer(f7), dir == 0 ? ip::udp::endpoint(addr("10.0.1.1"), 5998) : ip::udp::endpoint(addr("10.0.0.1"), 5998), 0, fe);
+		if (ecs(fe) != "would_block") R.fails.push_back(fmt("harness: the send buffer did not fill up after %d small datagrams (%s)", fillers, ecs(fe).c_str()));
+	}
 	std::size_t ret = tx.send_to(asio::buffer(pl), dir == 0 ? ip::udp::endpoint(addr("10.0.1.1"), 5000) : ip::udp::endpoint(addr("10.0.0.1"), 4000), 0, ec);
 	sim.run();
-	size_t wire = 0; for (auto& p : w.log) { ++R.transitions; if (p.probe == 0 && p.type == sim::aux::packet::type_t::payload) ++wire; }
+	size_t wire = 0; for (auto& p : w.log) { ++R.transitions; if (p.probe == 0 && p.type == sim::aux::packet::type_t::payload && !(busy && p.payload == 7)) ++wire; }
 	bool over = size > mtu; bool expect_drop = over && df == 1;
-	R.trace = fmt("mtu %d size %d df %d dir %d: ret %zu %s wire %zu delivered %d", mtu, size, df, dir, ret, ecs(ec).c_str(), wire, int(got));
+	R.trace = fmt("mtu %d size %d df %d dir %d%s: ret %zu %s wire %zu delivered %d", mtu, size, df, dir, busy ? fmt(" send buffer full after %d small datagrams", fillers).c_str() : "", ret, ecs(ec).c_str(), wire, int(got));
+	if (busy && !expect_drop) {
+		// a deliverable datagram offered to a full send buffer: would_block and nothing sent (the only other acceptable outcome is a whole delivery)
+		if (ecs(ec) == "would_block" && ret == 0) { if (wire || got) R.fails.push_back(fmt("udp_send: send_to reported would_block but the %d-byte datagram was %s", size, got ? "delivered" : "put on the wire")); error_code ig2; rx.cancel(ig2); sim.run(); return R; }
+	}
 	if (ec || ret != size_t(size)) R.fails.push_back(fmt("udp_send: send_to of %d bytes (mtu %d, don't-fragment %s) returned %zu %s, expected %d ok", size, mtu, df == 1 ? "set" : df == 2 ? "cleared" : "untouched", ret, ecs(ec).c_str(), size));
 	if (expect_drop) { if (wire || got) R.fails.push_back(fmt("udp_df: a %d-byte datagram over MTU %d with don't-fragment set was %s", size, mtu, got ? "delivered" : "put on the wire")); }
 	else {
@@ -160,17 +173,18 @@ Res run_udp(int mtu, int scode, int df, int dir, bool multihomed)
 
 struct MtuEngine : Engine
 {
-	struct U { int kind, a, b, c, d, mh; };
+	struct U { int kind, a, b, c, d, mh; int busy = 0; };
 	std::vector<U> all;
 	uint64_t units(Args const&) override
 	{
 		all.clear();
 		for (int mh = 0; mh < 2; ++mh) for (int a = 0; a < 4; ++a) for (int b = 0; b < 4; ++b) for (int s = 0; s < 7; ++s) for (int l = 0; l < 2; ++l) all.push_back(U{ 0, MTUS[a], MTUS[b], s, l, mh });
 		for (int mh = 0; mh < 2; ++mh) for (int a = 0; a < 4; ++a) for (int s = 0; s < 7; ++s) for (int df = 0; df < 3; ++df) for (int dir = 0; dir < 2; ++dir) all.push_back(U{ 1, MTUS[a], s, df, dir, mh });
+		for (int a = 0; a < 4; ++a) for (int s = 0; s < 7; ++s) for (int df = 0; df < 3; ++df) for (int dir = 0; dir < 2; ++dir) { U u{ 1, MTUS[a], s, df, dir, 0 }; u.busy = 1; all.push_back(u); }
 		return all.size();
 	}
-	Res exec(U const& u) { return u.kind == 0 ? run_tcp(u.a, u.b, u.c, u.d, u.mh != 0) : run_udp(u.a, u.b, u.c, u.d, u.mh != 0); }
-	std::string ustr(U const& u) { return (u.kind == 0 ? fmt("tcp mtu(A,S)=%d mtu(B,S)=%d size-code %d layout %d", u.a, u.b, u.c, u.d) : fmt("udp mtu=%d size-code %d df=%d dir=%d", u.a, u.b, u.c, u.d)) + (u.mh ? " [both client addresses on one multi-homed node]" : ""); }
+	Res exec(U const& u) { return u.kind == 0 ? run_tcp(u.a, u.b, u.c, u.d, u.mh != 0) : run_udp(u.a, u.b, u.c, u.d, u.mh != 0, u.busy != 0); }
+	std::string ustr(U const& u) { return (u.kind == 0 ? fmt("tcp mtu(A,S)=%d mtu(B,S)=%d size-code %d layout %d", u.a, u.b, u.c, u.d) : fmt("udp mtu=%d size-code %d df=%d dir=%d", u.a, u.b, u.c, u.d)) + (u.mh ? " [both client addresses on one multi-homed node]" : "") + (u.busy ? " [send buffer full]" : ""); }
 	void run_unit(uint64_t i, Ctx& ctx) override
 	{
 		if (!ctx.next_case()) return;
